@@ -275,9 +275,10 @@ def _call(beh, eps, zold, dt):
             np.array(ok)[:, 0].astype(bool), pure)
 
 
-def integrate(beh, eps, zold, dt, stats):
+def integrate(beh, eps, zold, dt, stats, atom=1):
     """Integrate on every point, chunked.  A batch that raises (plane-stress iteration: the property only speaks of
-    steps that converge) is bisected down to the offending points, which are flagged `raised`."""
+    steps that converge) is split down to blocks of `atom` points (one difference stencil, or one step), which are
+    flagged `raised` as a whole."""
     N, n = eps.shape
     sig = np.full((N, n), np.nan)
     C = np.full((N, n, n), np.nan)
@@ -285,7 +286,8 @@ def integrate(beh, eps, zold, dt, stats):
     ok = np.zeros(N, dtype=bool)
     raised = np.zeros(N, dtype=bool)
     pure = True
-    stack = [np.arange(i, min(i + CHUNK, N)) for i in range(0, N, CHUNK)][::-1]
+    chunk = max(atom, CHUNK - CHUNK % atom)
+    stack = [np.arange(i, min(i + chunk, N)) for i in range(0, N, chunk)][::-1]
     while stack:
         idx = stack.pop()
         try:
@@ -296,12 +298,12 @@ def integrate(beh, eps, zold, dt, stats):
             stats["calls"] += 1
             if "did not converge" not in str(err):
                 raise
-            if len(idx) == 1:
+            nb = len(idx) // atom  # blocks
+            if nb <= 1:
                 raised[idx] = True
-            elif len(idx) <= 16:
-                stack.extend(idx[k:k + 1] for k in range(len(idx)))
             else:
-                stack.extend(part for part in np.array_split(idx, 8) if len(part))
+                cuts = sorted(set(int(round(k * nb / min(8, nb))) * atom for k in range(1, min(8, nb))))
+                stack.extend(part for part in np.split(idx, cuts) if len(part))
             continue
         sig[idx], C[idx], z[idx], ok[idx] = s, c, zz, o
         pure = pure and pu
@@ -518,7 +520,7 @@ def check_level(cfg, lay, behs, eps, zold, names, depth, full_fd, stats, out):
     pz = np.repeat(z0g, m * 4, axis=0)
     # sigma(eps) is evaluated by the twin with tightened local tolerances: with the default ones the returned stress
     # is a k-iteration map whose derivative is not the derivative of the converged map (plane stress: 4e-5 off)
-    psig, _, pzo, pok, praised, ppure = integrate(behT, pe, pz, dt, stats)
+    psig, _, pzo, pok, praised, ppure = integrate(behT, pe, pz, dt, stats, atom=4)
     tsig, _, tzo, tok, traised, _ = integrate(behT, eg, z0g, dt, stats)
     if not ppure:
         add("purity_inputs", 0, "Integrate changed the bytes of its arguments (perturbed points)")
@@ -564,6 +566,8 @@ def check_level(cfg, lay, behs, eps, zold, names, depth, full_fd, stats, out):
         # where the derivative exists, the two solvers must return the same tangent
         sm = np.zeros(N, dtype=bool)
         sm[gi] = smooth.all(axis=1)
+        # a neutral step (trial stress on the surface to round-off) is a kink: the solvers may sit on different sides of it
+        sm[gi] &= ((lay.p(zN[gi]) - lay.p(z0g)) > 0) == ((lay.p(zg) - lay.p(z0g)) > 0)
         bj = bi[sm[bi]]
         if len(bj):
             ec = np.max(np.abs(C[bj] - CN[bj]).reshape(len(bj), -1), axis=1) / np.max(np.abs(Cel))
@@ -581,7 +585,7 @@ def run_material(case):
     cfg = {k: case[k] for k in FACTORS}
     lay = Layout(cfg)
     behT = build_behavior(cfg, "auto")
-    behT._tol, behT._planeStress_tol, behT._maxIter = 1e-13, 1e-12, 30  # documented local solver settings
+    behT._tol, behT._planeStress_tol = 1e-13, 1e-12  # documented local solver settings
     behs = (build_behavior(cfg, "auto"), build_behavior(cfg, "newton"), behT)
     out = []
     if behs[0].layout.n != lay.n or [str(k) for k in behs[0].layout.slots] != list(lay.slots):
@@ -757,6 +761,7 @@ def run_simulation(case):
     apply_load(simu, mesh, load)
     u_model = np.zeros(mesh.Nn * simu.Get_dof_n())
     ntr, fps, solved_plastic = 0, [], False
+    trial_base = None  # committed state the trial state was integrated from (None: no Solve since the last restore)
 
     def add(check, i, msg):
         if len(out) < 12:
@@ -806,6 +811,7 @@ def run_simulation(case):
                 add("dt_not_passed", i, "Integrate did not receive simu.dt")
             for c in calls:
                 trial[c["et"]] = c["zout"]  # the last call of each group wins
+            trial_base = {et: a.copy() for et, a in committed.items()}
             chain_t = chain_c + (load,)
             u_model = np.array(simu.displacement, dtype=float)
             # two Solves from the same committed state agree: compare with the canonical history on a fresh simulation
@@ -821,7 +827,6 @@ def run_simulation(case):
             if lay.n and "p" in lay.slots:
                 solved_plastic = solved_plastic or any(float(np.max(t[..., 6])) > 1e-9 * EPS_Y for t in trial.values())
         elif op == "S":
-            before = {et: a.copy() for et, a in committed.items()}
             committed = {et: a.copy() for et, a in trial.items()}
             chain_c = chain_t
             saved.append(({et: a.copy() for et, a in committed.items()}, u_model.copy()))
@@ -829,10 +834,10 @@ def run_simulation(case):
             # the committed step is the converged one: z == Integrate(eps(u), previous committed state)
             for g in groups:
                 et = str(g.elemType)
-                if et not in committed or lay.n == 0:
+                if et not in committed or lay.n == 0 or trial_base is None:
                     continue
                 eps_g = simu._Calc_Epsilon_e_pg(simu.displacement, g, MatrixType.rigi)
-                z0 = before.get(et)
+                z0 = trial_base.get(et)
                 z0 = zeros_like_group(et) if z0 is None else z0
                 from EasyFEA.FEM._linalg import FeArray
 
@@ -844,6 +849,7 @@ def run_simulation(case):
             k = int(op[1])
             committed = {et: a.copy() for et, a in saved[k][0].items()}
             trial = {et: a.copy() for et, a in committed.items()}
+            trial_base = None  # the trial state is a restored one, not the outcome of a Solve
             chain_c = chain_t = chains[k]
             u_model = saved[k][1].copy()
             if np.array(simu.displacement).tobytes() != u_model.tobytes():
@@ -944,7 +950,7 @@ def describe(tier, seed):
         "assumptions": [
             "steps whose local solve reports converged=False or whose plane-stress iteration raises are outside the property ('step sizes that converge'): counted (outcome class 'nonconverged-steps'), not expanded",
             "one elastic law (isotropic E=210e3, nu=0.3), one parameter set per hardening / kinematic / rate / branch letter, dt = 0.5 for rate-dependent and viscoelastic behaviours",
-            "sigma(eps) for the difference quotients is evaluated with the documented local solver settings tightened (_tol=1e-13, _planeStress_tol=1e-12, _maxIter=30) and only where that agrees with the default-settings stress; the tangent under test is the one returned with the default settings",
+            "sigma(eps) for the difference quotients is evaluated with the documented local solver settings tightened (_tol=1e-13, _planeStress_tol=1e-12) and only where that agrees with the default-settings stress; the tangent under test is the one returned with the default settings",
             "tolerances: f <= 1e-8 sigma_y; dp >= -1e-15; |tr eps_p| <= 1e-10 eps_y; dissipation >= -1e-12 sigma_y; tangent 2e-6 |C d|; solvers 1e-8; no internal variables 1e-13; plane stress: documented max(1e-8*max(sigma_y,1), 10*1e-10*C_zz)",
             "rate-dependent behaviours: instead of f <= 0 the documented overstress relation f = phi^-1(dp/dt) is demanded of flowing points",
             "simulation level: two Solves 'agree' = displacement within 1e-6 (relative) of the same Solve on a fresh simulation brought to the same committed state by Solve/Save_Iter",
